@@ -29,7 +29,7 @@ SPEC = dict(
          "attacker datagram inserted at EVERY position of 4 honest negotiations played by the harness; 1500 (8000) seeded random sequences "
          "of 3..14 (3..24) operations, each followed by an unmodelled malformed tail (single-bit flips of authentic messages, STUN-shaped "
          "random attributes, random bytes). A sequence is non-trivial when it yields >= 2 distinct observations. "
-         "STUN-SERVER block: 1 and 2 STUN servers (harness sockets) configured before bind; every sequence of length 2 (3) over 14 server-path "
+         "STUN-SERVER block: 1 and 2 STUN servers (harness sockets) configured before bind; every sequence of length 2 (3) over 18 server-path "
          "datagrams (answers from the server and from foreign addresses, error/request/indication classes, other method, bad/truncated/"
          "overrunning attributes, guessed ids) followed by an ordinary negotiation; compared: local candidates added, gathering complete. "
          "Also in the op alphabet: close() (then only datagrams and sendDatagram), setRemotePassword with a NEW value and responses "
@@ -63,8 +63,8 @@ SPEC = dict(
     ],
     assumptions=[
         "one local host transport per modelled component (the two-agent runs also use two local addresses); STUN servers are modelled for "
-        "their acceptance rule only (answers without mapped address / with an already known address are kept out of the correspondence: "
-        "today they leave a deleted transaction registered - findings C15:stun-discovery-*); no TURN server is run: relayed datagrams are "
+        "their acceptance rule only (answers without mapped address / with an already known address used to leave a deleted transaction "
+        "registered: fixed by 314ddf9, both inputs are in the correspondence, the ASan child-process probe stays); no TURN server is run: relayed datagrams are "
         "injected at the TURN transport's signal, oracle only",
         "application (non-STUN) datagrams are delivered to the application from ANY source address, before and after a pair is selected, "
         "and sendDatagram before selection writes to the fallback pair (first signalled candidate, or the known candidate that last sent "
@@ -116,9 +116,9 @@ SPEC = dict(
                "single datagrams / depth 2-3, interleavings at every point of honest negotiations, sampled beyond). Modelled: peer checks, STUN-server discovery (acceptance rule), close(), separately set / replaced remote "
                "credentials, fallback pair, retransmission and time-out. NOT modelled: the TURN allocation (forged datagrams are injected on "
                "its path, oracle only), several local transports, role-conflict resolution (the code implements none: same-role requests are "
-               "dropped), behaviour after close() beyond receive/send. Open findings: C15:stun-discovery-never-completes and "
-               "C15:stun-discovery-use-after-free (one root cause, fixes/C15-stun-discovery-dangling-transaction.diff; the model follows the "
-               "repaired behaviour and the two triggering inputs are kept out of the correspondence). The safety half is "
+               "dropped), behaviour after close() beyond receive/send. Found and fixed on the way: C15:stun-discovery-never-completes / "
+               "C15:stun-discovery-use-after-free (repo commit 314ddf9; triggering inputs in the correspondence, ASan child-process probe kept). "
+               "The safety half is "
                "full strength since repo commit f41aa68 (before it, integrity-less messages were processed: findings "
                "C15:binding-request-without-mi-processed / C15:binding-response-without-mi-accepted, now under 'fixed'; both oracle keys "
                "and the old witness stay in the harness). Liveness is proved for the lossless in-order schedule (all components and addresses) "
